@@ -328,6 +328,10 @@ def run(ctx):
     except feature.TranslateError as ex:
         tie_ok, tie_err = False, str(ex)
         ctx.log("translator failed:", tie_err[:300])
+        g, f, fl = feature.fallback(core.REPO)   # defined baseline: the configuration of the pinned commit
+        known = [n for n, _ in kinds_tr.kinds(core.REPO)]
+        core.write_if_changed(GEN, feature.lean_text(g, [k for k in f if k in known], fl, known))
+        cov["translated"] = {"fallback": "pinned-commit configuration", "error": tie_err[:500]}
     # 2 prove -----------------------------------------------------------------------------------
     ok, log = ctx.prove(MODULE, ["drv_c17"])
     broken = []
